@@ -16,7 +16,7 @@ from harness import c02
 PID = 'C03'
 BOUNDS = {'quick': dict(defect_M='2..3', stop_rule='unbounded ints/reals (single call)', controller='NP<=3, levels<=3, Kmax<=3', freshness='NP<=2, levels<=2, maxiter<=3'), 'thorough': dict(defect_M='1..5', controller='NP<=4, levels<=3, Kmax<=4', freshness='NP<=3, levels<=2, maxiter<=4')}
 RES_TYPES = ['full_abs', 'last_abs', 'full_rel', 'last_rel']
-C03_CLAUSES = ('budget', 'niter-record', 'iter-counter', 'done-without-sweep', 'exception')
+C03_CLAUSES = ('budget', 'niter-record', 'iter-counter', 'done-without-sweep', 'exception', 'finished-above-restol')
 
 
 def describe(rep):
